@@ -100,6 +100,13 @@ Do(t, o) ==
     [] o.op = "min" -> R(t, IF t = Nil THEN None ELSE MinK(t), 0)
     [] o.op = "max" -> R(t, IF t = Nil THEN None ELSE MaxK(t), 0)
     [] o.op = "len" -> R(t, Size(t), 0)
+    [] o.op = "is_empty" -> R(t, IF t = Nil THEN 1 ELSE 0, 0)
+    [] o.op \in {"get_mut", "index_mut", "index"} ->          \* a lookup (splays) handing out the value slot
+         IF t = Nil THEN R(Nil, None, 0)
+         ELSE LET s == Splay(k, t) hit == K(s) = k IN
+              IF ~hit THEN R(s, None, 1)
+              ELSE IF o.op = "index" THEN R(s, V(s), 1)
+              ELSE R(Mk(K(s), o.v, Lf(s), Rt(s)), V(s), 1)
     [] o.op = "clear" -> R(Nil, None, TeardownDepth(t))
 
 \* the consuming iterator: `cur` is rotated until its root has no left (right) child
